@@ -476,16 +476,17 @@ def r4_predicates(P, rep, ctx):
     rep.check("if not M.is_internal_path(node.name, M.METADOR_META_PREF): return" in t.replace("\n", " "), "C08.R4", fm.qual, "metadata objects are identified by the segment-prefix predicate with the metadata prefix", fm.loc(), construct="find_missing filter", message="find_missing does not identify metadata nodes with is_internal_path(node.name, METADOR_META_PREF)")
     fi = P.func(f"{U}.to_meta_base_path")
     n = 0
+    joined = {c.args[0].id for c in local_calls(fi.node) if isinstance(c.func, ast.Attribute) and c.func.attr == "join" and c.args and isinstance(c.args[0], ast.Name)}
     for st in walk_local(fi.node):
         vals = []
-        if isinstance(st, ast.Assign) and any(norm(t) == "segs[-1]" for t in st.targets):
+        if isinstance(st, ast.Assign) and any(isinstance(t, ast.Subscript) and isinstance(t.value, ast.Name) and t.value.id in joined and norm(t.slice) == "-1" for t in st.targets):
             vals.append(st.value)
-        if isinstance(st, ast.Call) and call_attr(st) == "append" and norm(st.func.value) == "segs":
+        if isinstance(st, ast.Call) and call_attr(st) == "append" and isinstance(st.func.value, ast.Name) and st.func.value.id in joined:
             vals += st.args
         for v in vals:
             n += 1
             t = norm(v)
             rep.check(t == "METADOR_META_PREF" or t.startswith("METADOR_META_PREF +"), "C08.R4", fi.qual, f"metadata base segment starts with METADOR_META_PREF ({t})", fi.loc(st),
-                      construct=f"segment {t}", message=f"to_meta_base_path builds a segment that does not start with the reserved prefix: {t}")
+                      construct=f"segment {t.split('+')[0].strip()}", message=f"to_meta_base_path builds a segment that does not start with the reserved prefix: {t}")
     if n < 3:
         raise AnalysisError("to_meta_base_path: expected 3 segment constructions")
